@@ -572,11 +572,13 @@ func (s *Snapshotter) replay() error {
 
 	// Read each line
 	reader := bufio.NewReader(s.fh)
+	var complete int64 // length of the file up to the end of its last complete line
 	for {
 		line, err := reader.ReadString('\n')
 		if err != nil {
 			break
 		}
+		complete += int64(len(line))
 
 		// Skip the newline
 		line = line[:len(line)-1]
@@ -643,6 +645,18 @@ func (s *Snapshotter) replay() error {
 		} else {
 			s.logger.Printf("[WARN] serf: Unrecognized snapshot line: %v", line)
 		}
+	}
+
+	// A crash can leave a partial line at the end of the file (the buffered
+	// writer hands data to the OS in chunks that do not end at line
+	// boundaries). It was ignored above; cut it off as well, otherwise the
+	// next line we append would be glued to it and read back as garbage.
+	if complete < s.offset {
+		s.logger.Printf("[WARN] serf: Discarding partial line at the end of the snapshot")
+		if err := s.fh.Truncate(complete); err != nil {
+			return err
+		}
+		s.offset = complete
 	}
 
 	// Seek to the end
